@@ -84,8 +84,16 @@ class AddNode(BasicAction):
         self.tracks.graph.add_node(self.node)
 
         # set all user provided attributes including time and position
-        for attr, value in attrs.items():
-            self.tracks._set_node_attr(self.node, attr, value)
+        try:
+            for attr, value in attrs.items():
+                self.tracks._set_node_attr(self.node, attr, value)
+        except Exception:
+            # a value that cannot be stored: take the half-added node back, so that the
+            # refused action leaves the tracks untouched
+            self.tracks.graph.remove_node(self.node)
+            if self.pixels is not None:
+                self.tracks.set_pixels(self.pixels, 0)
+            raise
 
         # Always notify annotators - they will check their own preconditions
         self.tracks.notify_annotators(self)
